@@ -362,6 +362,19 @@ def run_storage_seq(ctx: Ctx, ops, lines_out, impl_out):
                 now[0] += op[1]
                 continue
             elif op[0] == "clean":
+                # branch classes of cleanItems, from the harness's own record of what is past its lifetime
+                for key in keys:
+                    flags = [now[0] - v.last_update > v.max_age for v in st.items.get(key, [])]
+                    if not flags:
+                        continue
+                    if not any(flags):
+                        ctx.count("A.clean:nothing-expired")
+                    elif all(flags):
+                        ctx.count("A.clean:all-expired")
+                    elif any(f and not all(flags[j:]) for j, f in enumerate(flags)):
+                        ctx.count("A.clean:expired-in-front-of-fresh")     # the pattern the old tail scan got wrong
+                    else:
+                        ctx.count("A.clean:expired-tail-only")
                 st.clean()
                 lines_out.append(f"sclean {now[0]}")
                 impl_out.append("ok")
@@ -381,6 +394,11 @@ def run_storage_seq(ctx: Ctx, ops, lines_out, impl_out):
                 lines_out.append(f"sget {h20(keys[k])} {start} {'none' if limit is None else limit}")
                 impl_out.append("[" + ",".join(str(meta[d]) for d in res) + "]")
                 ctx.count("A.get:len%d" % min(len(res), 4))
+                total = len(st.items.get(keys[k], []))
+                ctx.count("A.get:" + ("limit-none" if limit is None else "limit-zero" if limit == 0 else
+                                      "limit-cuts" if start + limit < total else "limit-not-reached"))
+                if start >= total > 0:
+                    ctx.count("A.get:start-beyond-end")
             elif op[0] == "old":
                 res = st.items_older_than(op[1])
                 lines_out.append(f"sold {now[0]} {op[1]}")
@@ -505,6 +523,9 @@ def gen_node_ops(rng, n):
         else:
             tk = rng.choice(["last", "last", "last", "first", "other_addr", "other_key", "s2", "junk", "flip"])
             ops.append(("storepeer", ident, (tk, rng.randrange(8)), rng.choice(["own", "own", "own", "other", "rand"])))
+            if ops[-1][2][0] == "last" and ops[-1][3] == "own" and rng.random() < 0.5:
+                ops.append(("find", ident, rng.randrange(6), 0, False))
+                ops.append(ops[-2])      # the same peer registers again (fresh token): must not be stored twice
     ops.append(("clean",))
     return ops
 
@@ -640,6 +661,7 @@ class NodeRun:
         s2_tokens = {}
         model_refs = [0]
         accepted = []        # (target, blob, time, spec max age)
+        ntok_before = [0]
         npeers = []
 
         def pick_token(ident, tk):
@@ -701,6 +723,10 @@ class NodeRun:
             by_ident.setdefault(ident, []).append(rec)
             self.emit(line, f"tok#{ref} {W.uids(resp.values)}")
             ctx.count("B.find:vals%d" % min(len(resp.values), 9))
+            if force:
+                ctx.count("B.find:force-nodes")
+            if offset:
+                ctx.count("B.find:offset>0" + (":nonempty" if resp.values else ":empty"))
             stored_now = len(dump(targets[ti]))
             if stored_now > 8 and not force:
                 ctx.count("B.find:more-stored-than-limit")
@@ -720,6 +746,7 @@ class NodeRun:
             if self.failed:
                 break
             now = loop.time()
+            ntok_before[0] = len(ov.tokens)
             ctx.count("B.op:" + op[0])
             if op[0] == "find":
                 await do_find(i, op[1], op[2], op[3], op[4], lan_other=len(op) > 5 and bool(op[5]))
@@ -845,6 +872,14 @@ class NodeRun:
                 if data is None and not changed:
                     ctx.count("B.reject-class:" + ("limits" if (big or many) else "token" if not ok_tok else
                                                    "blocked-or-noop"))
+                    if ok_tok:
+                        ctx.count("B.guard-only:" + ("size" if big and not many else "count" if many and not big else
+                                                     "size+count" if big else "blocked-or-noop"))
+                    elif not big and not many:
+                        ctx.count("B.guard-only:token")
+                if any(hashlib.sha1(W.truth[b]["wire"][3]).digest() == target if W.truth[b]["wire"][0] == "g"
+                       else hashlib.sha1(b).digest() == target for b in vals):
+                    ctx.count("B.store:value-id-equals-target")
                 if data is None and changed:
                     ctx.count("B.store:exception-after-partial-store")
                 if (data is not None or changed) and tok[2] is not None:
@@ -923,6 +958,8 @@ class NodeRun:
                 self.emit(f"peers {W.h20(target)}", "[" + ",".join(f"{W.pks(p)}@{aidx(x)}" for p, x in after) + "]")
                 ok_tok = token_ok(tok, ident, now)
                 ctx.count(f"B.storepeer:{tkind}:{'valid' if ok_tok else 'invalid'}:{'acc' if data is not None else 'rej'}")
+                if data is not None and before == after:
+                    ctx.count("B.storepeer:already-stored")
                 if data is not None or before != after:
                     if not ok_tok or target != W.mid[k]:
                         self.fail("DHTDiscoveryCommunity.on_store_peer_request:gate",
@@ -935,6 +972,12 @@ class NodeRun:
                 self.emit("ntok", str(len(ov.tokens)))
                 if ov.tokens:
                     ctx.count("B.adv-with-received-tokens")
+                if len(ov.tokens) < ntok_before[0]:
+                    ctx.count("B.recv:pruned-by-maintenance")
+                elif ntok_before[0] and op[0] == "rotate":
+                    ctx.count("B.recv:kept-by-maintenance")
+                if op[0] == "adv" and int((loop.time() - t_start) // 300) > int((now - t_start) // 300):
+                    ctx.count("B.scheduled-rotation-crossed")
                 if not ov.is_pending_task_active("token_maintenance"):
                     self.fail("DHTCommunity.token_maintenance:task-died",
                               f"the periodic token_maintenance task is no longer scheduled at t+{int(loop.time() - t_start)}: "
@@ -1118,6 +1161,15 @@ def part_c(ctx: Ctx, ncases: int, use_model: bool, seqs=None):
             ctx.count("C.pp:n%d" % min(len(values), 12))
             ctx.count("C.pp:forged" if forged else "C.pp:no-forged")
             ctx.count("C.pp:dup-signer" if len(signers) != len(set(signers)) else "C.pp:unique-signers")
+            tops = {}
+            for b in values:
+                t = W.truth[b]
+                if t["ok"] and t["signer"] is not None:
+                    tops.setdefault(t["signer"], []).append((t["version"], t["data"]))
+            if any(len({d for v, d in l if v == max(x[0] for x in l)}) > 1 for l in tops.values()):
+                ctx.count("C.pp:version-tie-different-data")       # Python max(): the first maximal element wins
+            if any(W.truth[b]["wire"][0] == "u" for b in values):
+                ctx.count("C.pp:unknown-entry")
             ctx.case(("C", repr(specs)), forged or len(signers) != len(set(signers)))
             # Crawl.values on per-node response lists built from the same values
             if values and i % 3 == 0:
@@ -1126,6 +1178,13 @@ def part_c(ctx: Ctx, ncases: int, use_model: bool, seqs=None):
                 c = Crawl.__new__(Crawl)
                 c.responses = [(None, {"values": r}) if r else (None, {"nodes": []}) for r in resp]
                 merged = c.values
+                nonempty = [r for r in resp if r]
+                if sum(map(len, nonempty)) > len(merged):
+                    ctx.count("C.crawl:duplicates-removed")
+                if len({len(r) for r in nonempty}) > 1:
+                    ctx.count("C.crawl:uneven-lengths")
+                if len(nonempty) < len(resp):
+                    ctx.count("C.crawl:response-without-values")
                 lines.append("crawl " + " ".join(W.uids(r) for r in resp if r) if any(resp) else "crawl")
                 impl.append(W.uids(merged))
                 reps.append({"part": "C", "crawl": True})
@@ -1298,15 +1357,21 @@ def part_f(ctx: Ctx, ncases: int, use_model: bool, seqs=None):
             interesting = False
             for specs in rounds:
                 values = [W.blob(sp) for sp in specs]
-                ov.tokens[remote.id] = (_t.time(), b"t" * 20)
+                # the token the node received from the remote node: fresh, at the edge of the window, stale, or none
+                tok_age = rng.choice([0, 0, 0, 5, 300, 599, 600, 601, 2000, None])
+                ov.tokens.pop(remote.id, None)
+                if tok_age is not None:
+                    ov.tokens[remote.id] = (_t.time() - tok_age, b"t" * 20)
                 before = list(ov.storages[UDPv4Address].get(key)) if UDPv4Address in ov.storages else []
                 n0 = len(cap.got)
                 t0 = loop.time()
+                aborted = False
                 try:
                     await ov.store_on_nodes(key, values, [remote])
                     ctx.count("F.store_on_nodes:returned")
                 except Exception as e:
                     ctx.count("F.store_on_nodes:raised:" + type(e).__name__)
+                    aborted = type(e).__name__ != "DHTError"    # an entry raised in the local loop: nothing is sent
                 dt = int(loop.time() - t0)
                 after = list(ov.storages[UDPv4Address].get(key)) if UDPv4Address in ov.storages else []
                 lines.append(f"cache {W.h20(key)} 1 " + " ".join(W.line(b) for b in values) if values
@@ -1320,6 +1385,9 @@ def part_f(ctx: Ctx, ncases: int, use_model: bool, seqs=None):
                 big = [b for b in values if len(b) > SPEC_MAX_SIZE]
                 ctx.count("F.values:n%d" % min(len(values), 12))
                 ctx.count("F.values:with-oversized" if big else "F.values:all-within-size")
+                small = [b for b in values if len(b) <= SPEC_MAX_SIZE]
+                ctx.count("F.keep:" + ("size-filtered+capped" if big and len(small) > SPEC_MAX_VALUES else
+                                       "size-filtered" if big else "capped" if len(small) > SPEC_MAX_VALUES else "all-kept"))
                 interesting = interesting or (after != before and len(after) - len(before) < len(set(values)))
                 # non-trivial = the local store changed and at least one offered value was not stored
                 new = [b for b in after if b not in before]
@@ -1336,6 +1404,18 @@ def part_f(ctx: Ctx, ncases: int, use_model: bool, seqs=None):
                         ctx.oracle_fail("DHTCommunity.add_value:unauthentic-stored",
                                         f"store_on_nodes stored the invalid entry {W.truth[b]['spec']}", replay)
                 # what it sends to the remote node
+                sent = any(d[22] == StoreRequestPayload.msg_id for _, d in cap.got[n0:])
+                ctx.count("F.token:" + ("none" if tok_age is None else "age<600" if tok_age < 600 else "age>=600")
+                          + (":sent" if sent else ":not-sent"))
+                # (when an entry raises, store_on_nodes ends before sending anything: nothing to compare with the model)
+                if not aborted:
+                    lines.append(f"maysend {int(t0)} {'none' if tok_age is None else int(t0) - tok_age}")
+                    impl.append("true" if sent else "false")
+                if sent and (tok_age is None or tok_age > SPEC_TOKEN_WINDOW):    # exactly at the window: not judged
+                    ctx.oracle_fail("DHTCommunity.store_on_nodes:stale-token-presented",
+                                    f"the node sent a store request with "
+                                    f"{'no token' if tok_age is None else 'a token received %d s ago' % tok_age} "
+                                    f"(window {SPEC_TOKEN_WINDOW} s)", replay)
                 for src, data in cap.got[n0:]:
                     if data[22] != StoreRequestPayload.msg_id:
                         continue
@@ -1529,6 +1609,84 @@ def run(ctx: Ctx):
     part_c_e2e(ctx, ctx.scale(40, 400))
     part_d(ctx, ctx.scale(1500, 20000), use_model)
     part_f(ctx, ctx.scale(150, 1500), use_model)
+    coverage_gate(ctx)
+
+
+# Branch classes of the hand-written model definitions (and of the generated ones they are parameterised by).  Every quick
+# run must reach each of them at least once; otherwise the correspondence has silently stopped tying that branch to the
+# code and the run ends with exit 2 (infrastructure), never with a pass.  `x*` = any counter with that prefix.
+BRANCH_CLASSES = {
+    "putItems: new id": ["A.put:new"], "putItems: new id == key (sorted to the tail)": ["A.put:new:id==key"],
+    "putItems: older version refused": ["A.put:older", "B.version:older"],
+    "putItems: equal version replaces": ["A.put:equal", "B.version:equal"],
+    "putItems: newer version replaces": ["A.put:newer", "B.version:newer"],
+    "putItems via the node: value id equals the target": ["B.store:value-id-equals-target"],
+    "cleanItems: nothing expired": ["A.clean:nothing-expired"], "cleanItems: all expired": ["A.clean:all-expired"],
+    "cleanItems: expired in front of fresh": ["A.clean:expired-in-front-of-fresh"],
+    "cleanItems: expired tail only": ["A.clean:expired-tail-only"],
+    "sliceItems: no limit": ["A.get:limit-none"], "sliceItems: limit 0": ["A.get:limit-zero"],
+    "sliceItems: limit cuts": ["A.get:limit-cuts"], "sliceItems: start beyond end": ["A.get:start-beyond-end"],
+    "unserialize: plain": ["B.value:str", "D.unser:ok-plain"], "unserialize: signed, verifies": ["B.value:sig", "D.unser:ok-signed"],
+    "unserialize: signed, bad signature": ["B.value:sig_badsig", "D.unser:none:badsig"],
+    "unserialize: tampered data / version / mis-claimed key": ["B.value:sig_tamper", "B.value:sig_vtamper", "B.value:sig_claim"],
+    "unserialize: non-canonical key bytes": ["B.value:sig_trail", "C.pp:non-canonical-key"],
+    "unserialize: unknown first byte": ["B.value:unknown", "D.unser:none"],
+    "unserialize: raises (empty / truncated / bad key)": ["B.value:empty", "B.value:trunc", "B.value:sig_badkey",
+                                                           "D.unser:raise:IndexError", "D.unser:raise:PackError",
+                                                           "D.unser:raise:ValueError"],
+    "addValues: exception after a partial store": ["B.store:exception-after-partial-store"],
+    "storeReq: accepted": ["B.store:accepted"], "storeReq: blocked / no-op with a valid request": ["B.guard-only:blocked-or-noop"],
+    "storeReq: only the size guard fires": ["B.guard-only:size"], "storeReq: only the count guard fires": ["B.guard-only:count"],
+    "storeReq: only the token guard fires": ["B.guard-only:token"],
+    "size guard boundary (170 / 171, plain and signed)": ["B.value-at-limit:plain:170", "B.value-at-limit:plain:171",
+                                                          "B.value-at-limit:signed:170", "B.value-at-limit:signed:171"],
+    "checkToken: newest secret": ["B.accepted-token-age:0-9"], "checkToken: previous secret": ["B.accepted-token-age:300-599"],
+    "checkToken: each foreign provenance refused": ["B.store:tok=other_addr:invalid", "B.store:tok=other_key:invalid",
+                                                    "B.store:tok=s2:invalid", "B.store:tok=junk:invalid",
+                                                    "B.store:tok=flip:invalid", "B.store:tok=first:invalid"],
+    "storeMaxAge: full and reduced lifetimes": ["B.store:max_age=3600", "B.store:max_age=1800", "B.store:max_age=900"],
+    "findReq: blocked": ["B.find:blocked"], "findReq: limit reached": ["B.find:vals8", "B.find:more-stored-than-limit"],
+    "findReq: force_nodes": ["B.find:force-nodes"], "findReq: offset": ["B.find:offset>0:nonempty", "B.find:offset>0:empty"],
+    "findReq: token for the source, not the named LAN address": ["B.find:lan-differs-from-source"],
+    "pingReq: answered / blocked": ["B.ping:answered", "B.ping:blocked"],
+    "storePeerReq: accepted": ["B.storepeer:own:valid:acc"], "storePeerReq: token guard": ["B.storepeer:own:invalid:rej"],
+    "storePeerReq: own-mid guard": ["B.storepeer:other:valid:rej", "B.storepeer:rand:valid:rej"],
+    "storePeerReq: peer already stored": ["B.storepeer:already-stored"],
+    "rotate: scheduled": ["B.scheduled-rotation-crossed"], "rotate: explicit": ["B.op:rotate"],
+    "rotate: received token pruned / kept": ["B.recv:pruned-by-maintenance", "B.adv-with-received-tokens"],
+    "fireClean: scheduled run observed": ["B.scheduled-maintenance-crossed"],
+    "postProcess: several values of one signer": ["C.pp:dup-signer"], "postProcess: forged entry skipped": ["C.pp:forged"],
+    "postProcess: equal top versions, different data": ["C.pp:version-tie-different-data"],
+    "postProcess: unknown entry skipped": ["C.pp:unknown-entry"], "postProcess: raises": ["C.pp:raised:*"],
+    "crawlValues: duplicates removed": ["C.crawl:duplicates-removed"], "crawlValues: uneven lists": ["C.crawl:uneven-lengths"],
+    "lookup end to end: single and dual stack": ["C.e2e:single-stack", "C.e2e:dual-stack"],
+    "unserializeB: every mutation kind": ["D.mut:trunc", "D.mut:trunc_tail", "D.mut:flip", "D.mut:lenfield", "D.mut:extend",
+                                          "D.mut:first", "D.mut:random", "D.mut:nosig", "D.mut:same"],
+    "serialize round trip": ["D.serialize"],
+    "keepLocal: size filter": ["F.keep:size-filtered"], "keepLocal: cap": ["F.keep:capped"],
+    "keepLocal: nothing dropped": ["F.keep:all-kept"],
+    "cacheStore: exception in the loop": ["F.store_on_nodes:raised:IndexError", "F.store_on_nodes:raised:PackError",
+                                          "F.store_on_nodes:raised:ValueError"],
+    "maySendStore: fresh / stale / no received token": ["F.token:age<600:sent", "F.token:age>=600:not-sent",
+                                                        "F.token:none:not-sent"],
+}
+
+
+def coverage_gate(ctx: Ctx):
+    """exit 2 when a listed branch class was not reached although nothing else went wrong"""
+    from vlib import InfraError
+
+    def hit(key):
+        if key.endswith("*"):
+            return any(v for k, v in ctx.counts.items() if k.startswith(key[:-1]))
+        return ctx.counts.get(key, 0) > 0
+    missing = {name: [k for k in keys if not hit(k)] for name, keys in BRANCH_CLASSES.items()}
+    missing = {n: ks for n, ks in missing.items() if ks}
+    ctx.extra["branch_classes"] = {"listed": len(BRANCH_CLASSES), "counters": sum(len(v) for v in BRANCH_CLASSES.values()),
+                                   "missing": missing}
+    if missing and not ctx.failures and not ctx.disagreements and not ctx.broken:
+        raise InfraError("coverage gate: branch classes never reached in this run: " +
+                         "; ".join(f"{n} ({', '.join(ks)})" for n, ks in list(missing.items())[:6]))
 
 
 def search(ctx: Ctx, reason: str):
